@@ -2135,3 +2135,52 @@ breaker('C16', 'ds-begin-ignores-base-tid', 'C16.R10', DSPY,
                 if last > self.changes.lastTransaction():
                     a = (ZODB.utils.newTid(last),)''',
         '''                pass''')
+
+# F50 / F51 (stale data-file handles around a pack)
+breaker('C08', 'pool-checkin-outside-condition', 'C02.R8', FSPY,
+        'FilePool.get',
+        '''            with self._cond:
+                self._out.remove(f)
+                self._files.append(f)
+                if self.writers and not self._out:
+                    self._cond.notify_all()''',
+        '''            self._out.remove(f)
+            self._files.append(f)
+            if not self._out:
+                with self._cond:
+                    if self.writers and not self._out:
+                        self._cond.notify_all()''')
+
+breaker('C08', 'lastinvalidations-handle-before-lock', 'C02.R7', FSPY,
+        'FileStorage.lastInvalidations',
+        '''        with self._lock:
+            # (a pack replaces self._file: look at it under the lock only)
+            file = self._file
+            seek = file.seek
+            read = file.read
+            pos = self._pos''',
+        '''        file = self._file
+        seek = file.seek
+        read = file.read
+        with self._lock:
+            pos = self._pos''')
+
+breaker('C08', 'undolog-no-recheck-after-handover', 'C02.R7', FSPY,
+        'FileStorage.undoLog',
+        '''                if self._pack_is_in_progress or us.file is not self._file:''',
+        '''                if self._pack_is_in_progress:''')
+
+twin('C08', 'undolog-recheck-split', FSPY, 'FileStorage.undoLog',
+     '''                if self._pack_is_in_progress or us.file is not self._file:
+                    # A pack started, or replaced the file we are reading.
+                    raise UndoError(
+                        'Undo is currently disabled for database '
+                        'maintenance.<p>')''',
+     '''                if self._pack_is_in_progress:
+                    raise UndoError(
+                        'Undo is currently disabled for database '
+                        'maintenance.<p>')
+                if self._file is not us.file:
+                    raise UndoError(
+                        'Undo is currently disabled for database '
+                        'maintenance.<p>')''')
